@@ -574,6 +574,31 @@ func c11(c *Ctx) {
 				}
 				// the len() must be of awaitingEvents[src] (possibly via the local queue)
 				okE = knownEmpty(factsAt(cl.Block()), func(v ssa.Value) bool { return strings.Contains(pathOf(v), "awaitingEvents[") })
+				// and nothing else suppresses the lookup: every condition the request depends on is a test of the two
+				// parking maps (an item parked without an outstanding lookup for its source is never released)
+				var mentions func(v ssa.Value, d int) bool
+				mentions = func(v ssa.Value, d int) bool {
+					if v == nil || d > 5 {
+						return false
+					}
+					if lk, ok := v.(*ssa.Lookup); ok {
+						p := pathOf(lk.X)
+						if strings.HasSuffix(p, ".awaitingMetrics") || strings.HasSuffix(p, ".awaitingEvents") {
+							return true
+						}
+					}
+					if in, ok := v.(ssa.Instruction); ok {
+						for _, op := range in.Operands(nil) {
+							if *op != nil && mentions(*op, d+1) {
+								return true
+							}
+						}
+					}
+					return false
+				}
+				for _, cd := range condsFor(cl.Block()) {
+					r.Check("lookup:"+FuncName(fn)+":suppressed-only-by-parked-items", mentions(cd.V, 0), cl.Pos(), "the lookup request depends on "+condExpr(cd.V)+" (only the presence of parked metrics / events for the source may suppress it)")
+				}
 				r.Check("lookup:"+FuncName(fn)+":no-events-parked", okE, cl.Pos(), "guard: "+cs)
 				r.Check("lookup:"+FuncName(fn)+":no-metrics-parked", okM, cl.Pos(), "guard: "+cs)
 			}
@@ -1019,6 +1044,88 @@ func c19(c *Ctx) {
 			return ok && staticCallee(cl) != nil && staticCallee(cl).Name() == "post"
 		})
 		r.Check("forwarder:posts-once", mp == 2, fde.Pos(), "post over all paths = "+maskString(mp))
+	})
+
+	c.Rule("C19.R6", "a delivery outlives its dispatcher: the context a delivery goroutine works under is not one that the function starting the goroutine cancels when it returns (a context whose cancel function is deferred or called by the starter is dead before the backend's SendEvent has sent anything)", 1, func(r *Rule) {
+		bh := w.Func("pkg/statsd", "(*BackendHandler).DispatchEvent")
+		if bh == nil {
+			r.Unresolved("(*BackendHandler).DispatchEvent")
+			return
+		}
+		c.SawFunc(FuncName(bh))
+		isCtx := func(t types.Type) bool { return strings.HasSuffix(t.String(), "context.Context") }
+		// contexts the starter cancels itself: ctx, cancel := context.WithX(...) with cancel deferred / called in bh
+		cancelled := map[ssa.Value]bool{}
+		for _, cl := range callsIn(bh) {
+			nm := calleeName(cl)
+			if !strings.HasPrefix(nm, "context.With") {
+				continue
+			}
+			call, ok := cl.(*ssa.Call)
+			if !ok {
+				continue
+			}
+			var cctx, cfn ssa.Value
+			for _, ref := range referrers(call) {
+				if ex, ok := ref.(*ssa.Extract); ok {
+					if ex.Index == 0 {
+						cctx = ex
+					} else {
+						cfn = ex
+					}
+				}
+			}
+			if cctx == nil || cfn == nil {
+				continue
+			}
+			for _, ref := range referrers(cfn) {
+				if ci, ok := ref.(ssa.CallInstruction); ok && ci.Common().Value == cfn {
+					if _, isGo := ci.(*ssa.Go); !isGo {
+						cancelled[cctx] = true
+					}
+				}
+			}
+		}
+		n := 0
+		for _, f := range WithAnon(bh) {
+			eachInstr(f, func(in ssa.Instruction) {
+				g, ok := in.(*ssa.Go)
+				if !ok {
+					return
+				}
+				n++
+				var given []ssa.Value
+				for _, a := range g.Call.Args {
+					if isCtx(a.Type()) {
+						given = append(given, a)
+					}
+				}
+				if mc, ok := g.Call.Value.(*ssa.MakeClosure); ok {
+					for _, b := range mc.Bindings {
+						// a captured variable holding a context
+						if isCtx(derefType(b.Type())) {
+							if cell, isCell := b.(*ssa.Alloc); isCell {
+								for _, ref := range referrers(cell) {
+									if st, ok := ref.(*ssa.Store); ok && st.Addr == ssa.Value(cell) {
+										given = append(given, st.Val)
+									}
+								}
+							} else {
+								given = append(given, b)
+							}
+						}
+					}
+				}
+				bad := ""
+				for _, v := range given {
+					if cancelled[ptrOrigin(v)] || cancelled[v] {
+						bad = pathOf(v)
+					}
+				}
+				r.Check("DispatchEvent:goroutine-context-outlives-dispatch", bad == "", g.Pos(), "the delivery goroutine is not given a context that DispatchEvent itself cancels "+bad)
+			})
+		}
+		r.Check("DispatchEvent:delivery-goroutines", n >= 1, bh.Pos(), fmt.Sprintf("%d go statements", n))
 	})
 
 	c.Rule("C19.R2", "wait chain: each stage's WaitForEvents waits for its own group and then for the next stage; parked events keep their count until handed on", 6, func(r *Rule) {
